@@ -31,6 +31,8 @@ for _t in BOUNDS.values():
     _t["variants_beyond_the_base_enumeration"] = VARIANTS
 # dtype shadow: every shadowed configuration is run once more on integer-dtype arrays (differential concrete run)
 DTYPE_SHADOW = lambda cfg: cfg["op"] != "pow"  # int ** negative int raises in numpy itself
+# reflected number-array operations also run on float64 every time (with a numpy scalar on the left: numpy's own dispatch)
+SHADOW_ALWAYS = lambda cfg: cfg["h"] == "unop" and cfg["op"].startswith("k_")
 OPTS = {"quick": dict(shadow_every=40), "thorough": dict(shadow_every=200)}
 
 BINOPS = ["add", "sub", "mul", "div", "pow", "min", "max"]
@@ -197,6 +199,9 @@ def run(cfg, w):
         return
     # ---- number operands / unary
     k = w.real("k") if op not in UNARY else None
+    if k is not None and not w.sym and op.startswith("k_"):
+        # float64 runs (shadow, replay): the number on the left is a numpy scalar, as np.sum / .max() / sum_values() return it
+        k = np.float64(k)
     from svx.sym import SymReal
 
     f = {
